@@ -23,7 +23,8 @@ REGISTRY = []
 
 
 class Ob:
-    def __init__(self, fn, prop, tier, timeout, desc, bounds, probe, outside, kf, shards=1, features="std"):
+    def __init__(self, fn, prop, tier, timeout, desc, bounds, probe, outside, kf, shards=1, features="std", also=()):
+        self.also = list(also)   # further properties this obligation is evidence for (e.g. its no_panic claim for C15)
         self.shards = shards
         self.features = features
         self.fn = fn
@@ -38,9 +39,9 @@ class Ob:
         self.kf = kf or []
 
 
-def obligation(prop, tier="quick", timeout=600, desc="", bounds="", probe=None, outside="", kf=None, shards=1, features="std"):
+def obligation(prop, tier="quick", timeout=600, desc="", bounds="", probe=None, outside="", kf=None, shards=1, features="std", also=()):
     def deco(fn):
-        REGISTRY.append(Ob(fn, prop, tier, timeout, desc, bounds, probe, outside, kf, shards, features))
+        REGISTRY.append(Ob(fn, prop, tier, timeout, desc, bounds, probe, outside, kf, shards, features, also))
         return fn
 
     return deco
@@ -311,6 +312,12 @@ class Ctx:
         """every collected panic edge is unreachable under the input assumptions"""
         if self.shard[0] != 0:
             return
+        # self-check of the executor: blocks that rustc marked `unreachable` must be infeasible in the encoding too
+        for i, (cond, fn) in enumerate(self.ex.unreachables[getattr(self, "_unreach_done", 0):]):
+            r, m = self.check_sat([cond], f"{name}/unreachable{i}", with_pc=False)
+            if r != "unsat":
+                raise Inconclusive(f"executor self-check failed: an `unreachable` block of {fn} is feasible in the encoding ({r}) -- modelling error")
+        self._unreach_done = len(self.ex.unreachables)
         for i, (cond, msg, fn) in enumerate(self.ex.panics):
             extra = [cond]
             if kf and kf[0] in self.known:
